@@ -49,6 +49,9 @@ func (m Mode) String() string {
 
 var ErrCrashed = errors.New("simdisk: process has crashed")
 
+// debugLog prints every scheduled storage operation when it proceeds.
+var debugLog = os.Getenv("VERIF_DEBUG") != ""
+
 type crashPanic struct{}
 
 type Disk struct {
@@ -60,6 +63,9 @@ type Disk struct {
 	fs    *storage.FileSystem
 	dir   string
 	cur   *Handle // handle currently inside the real engine (hook attribution)
+	// HookTask, when set, makes in-process simhook points (scan legs,
+	// merge/combine parents) scheduling points of that task.
+	HookTask string
 	// Open (not yet closed) metadata puts, for "no metadata put is open"
 	// instants.
 	openMetaPuts int
@@ -86,17 +92,15 @@ func NewDisk(mode Mode, sched *kernel.Sched) *Disk {
 		}
 		d.dir = dir
 		d.fs = storage.NewFileSystem()
-		simhook.Handler = d.hook
-	} else {
-		simhook.Handler = nil
 	}
+	simhook.Handler = d.hook
 	return d
 }
 
 // Close removes the run's directory.
 func (d *Disk) Close() {
+	simhook.Handler = nil
 	if d.Mode == FileFS {
-		simhook.Handler = nil
 		os.RemoveAll(d.dir)
 	}
 }
@@ -117,6 +121,32 @@ func (d *Disk) rel(path string) string {
 	return path
 }
 
+// ResetDataReads clears the data-object read counters.
+func (d *Disk) ResetDataReads() {
+	d.mu.Lock()
+	defer d.mu.Unlock()
+	d.DataReads = map[string]int{}
+	d.DataRanges = map[string][]int{}
+}
+
+// DataReadStats returns how many data objects (row files, not seek indexes or
+// vectors) were read since the last reset, and how many of those were read
+// through byte ranges taken from the seek index.
+func (d *Disk) DataReadStats() (objects, ranged int) {
+	d.mu.Lock()
+	defer d.mu.Unlock()
+	for p := range d.DataReads {
+		if strings.HasSuffix(p, "-seek.zng") || strings.HasSuffix(p, ".vng") {
+			continue
+		}
+		objects++
+		if len(d.DataRanges[p]) > 0 {
+			ranged++
+		}
+	}
+	return objects, ranged
+}
+
 func (d *Disk) MetaPutOpen() bool {
 	d.mu.Lock()
 	defer d.mu.Unlock()
@@ -132,6 +162,16 @@ func (d *Disk) count(op string) {
 // hook is installed as simhook.Handler while a FileFS disk exists.
 func (d *Disk) hook(site string, key uint64) {
 	if !strings.HasPrefix(site, "storage.file.") {
+		// In-process scheduling points (scan legs, merge/combine parents):
+		// park the calling goroutine under the run's query task, if any.
+		d.mu.Lock()
+		task := d.HookTask
+		d.mu.Unlock()
+		if task != "" && d.Sched != nil {
+			// Each (site, key) is its own task so that run-to-completion
+			// policies still alternate between legs.
+			d.Sched.Yield(fmt.Sprintf("%s:%s#%d", task, site, key), site, key)
+		}
 		return
 	}
 	d.mu.Lock()
@@ -194,6 +234,9 @@ func pathKey(path string) uint64 {
 
 // sched parks the caller (metadata ops; data create/close/delete).
 func (h *Handle) sched(op, path string) {
+	if debugLog {
+		defer func() { fmt.Fprintf(os.Stderr, "DISK %s %s %s\n", h.Client, op, h.d.rel(path)) }()
+	}
 	if h.Yield && h.d.Sched != nil {
 		h.d.Sched.Yield(h.Client, op, pathKey(h.d.rel(path)))
 	}
@@ -356,6 +399,9 @@ func (w *writer) Write(p []byte) (int, error) {
 	d := h.d
 	if w.meta {
 		h.sched("write", w.path)
+	}
+	if debugLog && len(p) < 24 {
+		fmt.Fprintf(os.Stderr, "DISK %s write-bytes %s %q\n", h.Client, d.rel(w.path), p)
 	}
 	die, now := h.step2(fmt.Sprintf("write %s (%d bytes)", d.rel(w.path), len(p)))
 	if die {
